@@ -402,6 +402,11 @@ class DAGRunConcurrentManager(DAGRunManagerLike):
                 return result
 
             except retry_policy.exceptions as error:  # noqa: PERF203
+                if isinstance(error, asyncio.CancelledError) and asyncio.current_task() in self._stopped_coro_tasks:
+                    # The engine is stopping the node (the run is over): not a failure of the node to retry,
+                    # even if the node asks to be retried after any BaseException
+                    raise
+
                 logger.debug(
                     'Node %s will be restarted in %s seconds...',
                     node_id,
